@@ -488,6 +488,14 @@ def part_methods(ctx, shard):
         "a.prod(axis,out)": lambda a, o: a.prod(axis=0, out=o),
         "np.prod(a,axis,out)": lambda a, o: np.prod(a, axis=0, out=o),
         "a.var(axis,out)": lambda a, o: a.var(axis=0, out=o),
+        # the function spellings with a BARE buffer (the view .d shares o's memory, so the snapshot of o sees the writes)
+        "np.var(a,axis,bare-out)": lambda a, o: np.var(a, axis=0, out=o.d),
+        "np.prod(a,axis,bare-out)": lambda a, o: np.prod(a, axis=0, out=o.d),
+        "np.std(a,axis,bare-out)": lambda a, o: np.std(a, axis=0, out=o.d),
+        "np.mean(a,axis,bare-out)": lambda a, o: np.mean(a, axis=0, out=o.d),
+        "np.sum(a,axis,bare-out)": lambda a, o: np.sum(a, axis=0, out=o.d),
+        "np.median(a,axis,bare-out)": lambda a, o: np.median(a, axis=0, out=o.d),
+        "np.var(a,axis,out)": lambda a, o: np.var(a, axis=0, out=o),
         "a.std(axis,out)": lambda a, o: a.std(axis=0, out=o),
         "a.sum(axis,out)": lambda a, o: a.sum(axis=0, out=o),
         "a.mean(axis,out)": lambda a, o: a.mean(axis=0, out=o),
